@@ -298,12 +298,7 @@ func (e *ExprAnd) String() string {
 }
 
 func (e *ExprAnd) cacheKey() uint64 {
-	key := uint64(maskAnd)
-	for _, e := range e.Exprs {
-		key = key ^ bits.RotateLeft64(e.cacheKey(), 1)
-	}
-
-	return key
+	return combineCacheKeys(maskAnd, e.Exprs)
 }
 
 type ExprOr struct {
@@ -354,10 +349,19 @@ func (e *ExprOr) String() string {
 }
 
 func (e *ExprOr) cacheKey() uint64 {
-	key := uint64(maskOr)
-	for _, e := range e.Exprs {
-		key = key ^ bits.RotateLeft64(e.cacheKey(), 1)
+	return combineCacheKeys(maskOr, e.Exprs)
+}
+
+// combineCacheKeys derives the cache key of an n-ary operator from the keys of its
+// operands. The combination depends on the order and the number of operands: a plain
+// XOR of the operand keys made expressions of different meaning share a key, e.g.
+// (a|c)&(b|c) and ^a&^b, or a&a and b&b.
+func combineCacheKeys(mask uint64, exprs []Expression) uint64 {
+	key := mask
+
+	for _, e := range exprs {
+		key = (bits.RotateLeft64(key, 5) ^ e.cacheKey()) * 0x9E3779B97F4A7C15
 	}
 
-	return key
+	return key ^ uint64(len(exprs))
 }
